@@ -33,13 +33,13 @@ def cases(tier, seed):
                 cfgs = NSCFG if (n <= 4 or idx % 7 == seed % 7) else ("exact", "removed")
                 for cfg in cfgs:
                     yield {"kind": "shape", "n": n, "idx": idx, "rooted": rooted, "ns": cfg, "seed": seed}
-    nrand = 1500 if tier == "quick" else 20000
+    nrand = 6000 if tier == "quick" else 40000
     for i in range(nrand):
         yield {"kind": "random", "i": i, "seed": seed}
-    npool = 300 if tier == "quick" else 5000
+    npool = 1500 if tier == "quick" else 10000
     for i in range(npool):
         yield {"kind": "pool", "i": i, "seed": seed}
-    npred = 300 if tier == "quick" else 5000
+    npred = 1500 if tier == "quick" else 10000
     for i in range(npred):
         yield {"kind": "pred", "i": i, "seed": seed}
 
